@@ -118,6 +118,14 @@ func (e *LoadError) Error() string {
 	return fmt.Sprintf("nfsim(%s): rule would not load [%s]: %s: %s", e.Kind, e.Class, e.Why, e.Rule)
 }
 
+// UndefinedChainError: a rule that fired jumps to a chain that is neither defined nor declared a leaf (the
+// real loader would have refused the rule set).
+type UndefinedChainError struct{ Chain string }
+
+func (e *UndefinedChainError) Error() string {
+	return fmt.Sprintf("nfsim: reference to undefined chain %q (the real loader would reject this)", e.Chain)
+}
+
 type actKind int
 
 const (
@@ -308,7 +316,7 @@ func (rs *Ruleset) Eval(entry string, p Packet, trace bool) (Result, error) {
 		}
 		t := rs.Chains[name]
 		if t == nil {
-			return false, "", fmt.Errorf("nfsim: reference to undefined chain %q (the real loader would reject this)", name)
+			return false, "", &UndefinedChainError{Chain: name}
 		}
 		if push {
 			if len(stack) > 64 {
